@@ -116,7 +116,7 @@ def circuits(E, layers):
     c = build_circuit(E, x, y, layers)
     mixed = c.is_mixed
     how = E.choice('how', ['symbol', 'expr', 'other-param', 'pairs',
-                           'number', 'rational'])
+                           'number', 'rational', 'constant'])
     if how == 'symbol':
         args = (x, u)
     elif how == 'expr':
@@ -127,6 +127,8 @@ def circuits(E, layers):
         args = ([(x, u), (y, u + 1)],)
     elif how == 'number':
         args = (x, 0.375)
+    elif how == 'constant':
+        args = (x, sympy.sqrt(2) / 2)    # a sympy constant, not a Number
     else:
         args = (x, sympy.Rational(3, 8))
     before = structure(c)
@@ -139,7 +141,7 @@ def circuits(E, layers):
     else:
         rhs = entry_subs(flat(c.eval(mixed=mixed)), *args)
     lib = flat(c.eval(mixed=mixed).subs(*args))
-    if how in ('number', 'rational'):
+    if how in ('number', 'rational', 'constant'):
         numeric_equal(E, lhs, rhs, "C14:circuit:subs-then-eval", [y, u], how)
         numeric_equal(E, lib, rhs, "C14:tensor-subs:not-entrywise", [y, u])
     else:
@@ -273,7 +275,7 @@ def harnesses(tier):
     return [
         H("circuits", circuits, dict(layers=1 if q else 2), FUNCS,
           covers=['symbol', 'expr', 'other-param', 'pairs', 'number',
-                  'rational', 'pure', 'mixed'],
+                  'rational', 'constant', 'pure', 'mixed'],
           engine="SYM (z3 QF_NRA, circle pairs)",
           bounds="Ket(0,0) then %d layer(s) from {Rx,Rz,Ry,CRz,CRx,CU1,"
           "Rx.dagger, scalar, mixed scalar, sqrt, H} with phases in "
